@@ -346,6 +346,10 @@ func runPurity(c *runCtx) {
 		}
 		if r.Chance(1, 4) {
 			plan.LongLen = r.Range(200, 3000)
+			if r.Chance(1, 4) {
+				// beyond slab16Size/M: FuzzyMatchV2 falls back to the greedy V1
+				plan.LongLen = r.Range(50000, 59000)
+			}
 		}
 	}
 	c.plan = plan
@@ -363,7 +367,16 @@ func runPurity(c *runCtx) {
 					b[j] = ' '
 				}
 			}
-			lines[i] = string(b) + lines[i]
+			if k%2 == 0 {
+				// everything the query can match sits in a small region, followed by a long tail the ASCII
+				// pre-filter trims away (only for byte-held text)
+				for j := range b {
+					b[j] = "xyz "[lr.Intn(4)]
+				}
+				lines[i] = "a_b ab e_f ef c_d cd " + lines[i] + " " + string(b)
+			} else {
+				lines[i] = "a_b ab " + string(b) + lines[i]
+			}
 		}
 		c.count("probe.long_lines", 1)
 	}
@@ -409,7 +422,13 @@ func runPurity(c *runCtx) {
 			r1, off1, pos1 := pat.MatchItem(&items[i], withPos, slabs[w])
 			fresh := Item{text: util.ToChars([]byte(lines[i]))}
 			fresh.text.Index = int32(i)
-			r2, off2, pos2 := iso.MatchItem(&fresh, withPos, nil)
+			// isolated evaluation: fresh scratch memory. nil means "allocate"; but fzf only falls back from V2 to the
+			// greedy V1 for long lines when it is given a slab, so for long lines the fresh memory is a fresh slab
+			var isoSlab *util.Slab
+			if len(lines[i]) > 4000 {
+				isoSlab = util.MakeSlab(slab16Size, slab32Size)
+			}
+			r2, off2, pos2 := iso.MatchItem(&fresh, withPos, isoSlab)
 			if (r1 == nil) != (r2 == nil) {
 				c.violate("purity.match", "query %q line %q: match=%v with reused slab (worker %d, poison %d), match=%v in isolation", q, clip([]byte(lines[i])), r1 != nil, w, mode%4, r2 != nil)
 				return
@@ -440,7 +459,7 @@ func runPurity(c *runCtx) {
 			// the same text held as runes instead of bytes
 			rn := Item{text: util.RunesToChars([]rune(lines[i]))}
 			rn.text.Index = int32(i)
-			r3, off3, _ := iso.MatchItem(&rn, withPos, nil)
+			r3, off3, _ := iso.MatchItem(&rn, withPos, isoSlab)
 			if (r3 == nil) != (r2 == nil) || r3 != nil && (r3.points != r2.points || fmt.Sprint(off3) != fmt.Sprint(off2)) {
 				c.violate("purity.representation", "query %q line %q: bytes-backed text gives %v %v, runes-backed text gives %v %v", q, clip([]byte(lines[i])), resPoints(r2), off2, resPoints(r3), off3)
 				return
